@@ -211,13 +211,13 @@ def judge(case, obs, answers):
     labels = [l for l, _ in _requests(case, obs)]
     skipped = 0
     for lab, a in zip(labels, answers):
-        if sp.max_bits(a["model"]) > BITS_LIMIT:
+        if a.get("bits", 0) > BITS_LIMIT:
             skipped += 1
             continue
         if not a["holds"]:
             return {"status": "violation", "clause": a["clause"], "where": lab}
     for lab, a in zip(labels, answers):
-        if sp.max_bits(a["model"]) > BITS_LIMIT:
+        if a.get("bits", 0) > BITS_LIMIT:
             continue
         if not a["agree"]:
             return {"status": "disagree", "clause": "model-differs:" + ",".join(a["differs"]), "where": lab,
